@@ -82,6 +82,21 @@ pub enum Op {
     Lincomb { dst: usize, pairs: Vec<(usize, usize)> },
     /// dst = a^-1 if it exists (register unchanged otherwise)
     Invert { dst: usize, a: usize, vartime: bool },
+    /// Conditional selection between register `a` and a value of a DIFFERENT modulus `m2` of the same width (runtime
+    /// fixed-width forms carry their parameters with them, so this is ordinary API use). choice = 0 must give back
+    /// register `a` unchanged (stored in `dst`); choice = 1 must give a value that lives entirely in Z/m2Z: its
+    /// parameters are those built directly for m2 and a few operations with a second m2 value `w` track Z/m2Z.
+    CrossSelect { dst: usize, a: usize, m2: Vec<u64>, v: Vec<u64>, w: Vec<u64>, form: u8 },
+}
+
+/// What `Rep::cross_select` observed.
+pub struct Cross<S> {
+    pub keep: S,
+    pub params_selected: String,
+    pub params_selected_alone: String,
+    pub params_direct: String,
+    pub mont: Vec<u64>,
+    pub results: Vec<(&'static str, Vec<u64>)>,
 }
 
 #[derive(Clone, Copy, Debug, Serialize, Deserialize, PartialEq, Eq)]
@@ -131,6 +146,11 @@ pub trait Rep: Clone {
     fn lincomb(pairs: &[(Self, Self)]) -> Self;
     /// None: this replica offers no inversion; Some(None): not invertible
     fn invert(&self, vartime: bool) -> Option<Option<Self>>;
+    /// None: values of this replica cannot meet a value of another modulus (compile-time modulus; boxed forms are not
+    /// conditionally selectable)
+    fn cross_select(&self, _m2: &[u64], _v: &[u64], _w: &[u64], _form: u8) -> Option<Cross<Self>> {
+        None
+    }
 }
 
 /// Inversion of the fixed-width forms needs `Odd<Uint<N>>: PrecomputeInverter`, which exists per alias width.
@@ -357,6 +377,40 @@ where
                 s
             }
         }
+    }
+    fn cross_select(&self, m2: &[u64], v: &[u64], w: &[u64], form: u8) -> Option<Cross<Self>> {
+        let odd = Option::<Odd<Uint<N>>>::from(Odd::new(uint_of::<N>(m2)))?;
+        let p2 = MontyParams::<N>::new_vartime(odd);
+        let x2 = MontyForm::new(&uint_of::<N>(v), p2);
+        let y2 = MontyForm::new(&uint_of::<N>(w), p2);
+        let keep = Self::select(self, &x2, false, form);
+        let sel = Self::select(self, &x2, true, form);
+        let alone = MontyParams::conditional_select(self.params(), &p2, Choice::from(1u8));
+        let r = |z: MontyForm<N>| MontyForm::retrieve(&z).to_words().to_vec();
+        let mut plus_assign = sel;
+        plus_assign += &y2;
+        let results = vec![
+            ("select", r(sel)),
+            ("select.add(w)", r(sel.add(&y2))),
+            ("w.add(select)", r(y2.add(&sel))),
+            ("select + w", r(sel + y2)),
+            ("select += w", r(plus_assign)),
+            ("select.sub(w)", r(sel.sub(&y2))),
+            ("w.sub(select)", r(y2.sub(&sel))),
+            ("select.mul(w)", r(sel.mul(&y2))),
+            ("select.double()", r(sel.double())),
+            ("select.neg()", r(sel.neg())),
+            ("select.square()", r(sel.square())),
+            ("select.div_by_2()", r(sel.div_by_2())),
+        ];
+        Some(Cross {
+            keep,
+            params_selected: format!("{:?}", sel.params()),
+            params_selected_alone: format!("{:?}", alone),
+            params_direct: format!("{:?}", p2),
+            mont: Monty::as_montgomery(&sel).to_words().to_vec(),
+            results,
+        })
     }
     fn mont(&self) -> Vec<u64> {
         Monty::as_montgomery(self).to_words().to_vec()
@@ -1017,6 +1071,75 @@ fn run<C: Rep, D: Rep + Monty, B: Rep + Monty>(
                 });
                 touched.push(*dst);
             }
+            Op::CrossSelect { dst, a, m2, v, w, form } => {
+                opname = "cross-select".into();
+                model.regs[*dst] = model.regs[*a].clone();
+                if let Some(s) = c.as_mut() {
+                    s.regs[*dst] = s.regs[*a].clone();
+                }
+                if let Some(s) = b.as_mut() {
+                    s.regs[*dst] = s.regs[*a].clone();
+                }
+                if let Some(s) = d.as_mut() {
+                    match guard(|| s.regs[*a].cross_select(m2, v, w, *form)) {
+                        Guarded::Done(Some(x)) => {
+                            out.ev("cross-select");
+                            out.count("probe:cross-modulus-selection-checked");
+                            let mm2 = big(m2);
+                            let (vv, ww) = (big(v) % &mm2, big(w) % &mm2);
+                            let lz = |m: &BigUint| (64 * plan.limbs as u64).saturating_sub(m.bits()).min(2);
+                            out.state(format!("cross-select|w{}|lz-own={}|lz-other={}|form{}", plan.limbs, lz(&model.m), lz(&mm2), form % 3));
+                            if x.params_selected != x.params_direct || x.params_selected_alone != x.params_direct {
+                                out.viol(
+                                    "C08/params-mismatch",
+                                    format!("runtime:cross-select:params:w{}", plan.limbs),
+                                    format!("selecting (choice = 1) a value of modulus {} over a value of modulus {} gave parameters {} (MontyParams alone: {}); built directly for that modulus: {}", hexw(m2), hexw(&to_words_n(&model.m, plan.limbs)), x.params_selected, x.params_selected_alone, x.params_direct),
+                                    None,
+                                );
+                            }
+                            if big(&x.mont) >= mm2 {
+                                out.viol("C08/noncanonical", "runtime:cross-select".into(), format!("the selected value stores {} >= its modulus {}", hexw(&x.mont), hexw(m2)), None);
+                            }
+                            let sub = |a: &BigUint, b: &BigUint| (a + &mm2 - b) % &mm2;
+                            let two = BigUint::from(2u8);
+                            for (name, got) in &x.results {
+                                let want: BigUint = match *name {
+                                    "select" => vv.clone(),
+                                    "select.add(w)" | "w.add(select)" | "select + w" | "select += w" => (&vv + &ww) % &mm2,
+                                    "select.sub(w)" => sub(&vv, &ww),
+                                    "w.sub(select)" => sub(&ww, &vv),
+                                    "select.mul(w)" => (&vv * &ww) % &mm2,
+                                    "select.double()" => (&vv * &two) % &mm2,
+                                    "select.neg()" => sub(&BigUint::default(), &vv),
+                                    "select.square()" => (&vv * &vv) % &mm2,
+                                    _ => {
+                                        // halve: the x with 2x = v (mod m2); m2 odd
+                                        if (&vv % &two).is_zero() { &vv / &two } else { (&vv + &mm2) / &two }
+                                    }
+                                };
+                                if big(got) != want {
+                                    out.viol(
+                                        "C08/retrieve-mismatch",
+                                        format!("runtime:cross-select:{}", name),
+                                        format!("after selecting (choice = 1) the value {} of modulus {} over a value of modulus {}, {} (w = {}) retrieves {} but Z/m2Z gives 0x{:x}", hexw(&to_words_n(&vv, plan.limbs)), hexw(m2), hexw(&to_words_n(&model.m, plan.limbs)), name, hexw(&to_words_n(&ww, plan.limbs)), hexw(got), want),
+                                        None,
+                                    );
+                                }
+                            }
+                            s.regs[*dst] = x.keep;
+                        }
+                        Guarded::Done(None) => {
+                            s.regs[*dst] = s.regs[*a].clone();
+                        }
+                        Guarded::Panic(p) => {
+                            out.viol("C11/unexpected-panic", format!("monty:runtime:cross-select:{}", p.location), format!("selection between values of two moduli, or an operation on the result, panicked at {}: {}", p.location, p.message), None);
+                            s.regs[*dst] = s.regs[*a].clone();
+                        }
+                        Guarded::Budget => {}
+                    }
+                }
+                touched.push(*dst);
+            }
             Op::Invert { dst, a, vartime } => {
                 opname = if *vartime { "invert_vartime".into() } else { "invert".into() };
                 if model.m.is_one() {
@@ -1619,7 +1742,10 @@ impl TypedScenario for History {
         let mb = big(&modulus);
         let srcs = [ParamsSrc::New, ParamsSrc::NewVartime, ParamsSrc::FromConst];
         // swarm weights over operation groups
-        let mut w = [6u32, 1, 1, 6, 6, 6, 3, 3, 3, 3, 4, 4, 1, 2, 1, 1, 1, 1, 1, 1, 1, 2, 2, 2];
+        let mut w = [6u32, 1, 1, 6, 6, 6, 3, 3, 3, 3, 4, 4, 1, 2, 1, 1, 1, 1, 1, 1, 1, 2, 2, 2, 2];
+        if boxed_only {
+            w[24] = 0;
+        }
         for x in w.iter_mut() {
             if r.chance(1, 5) {
                 *x = 0;
@@ -1726,7 +1852,12 @@ impl TypedScenario for History {
                     let k = r.range(1, 5) as usize;
                     Op::Lincomb { dst: reg(&mut r), pairs: (0..k).map(|_| (reg(&mut r), reg(&mut r))).collect() }
                 }
-                _ => Op::Invert { dst: reg(&mut r), a: reg(&mut r), vartime: r.chance(1, 2) },
+                23 => Op::Invert { dst: reg(&mut r), a: reg(&mut r), vartime: r.chance(1, 2) },
+                _ => {
+                    let m2 = gen_modulus(&mut r, limbs);
+                    let m2b = big(&m2);
+                    Op::CrossSelect { dst: reg(&mut r), a: reg(&mut r), v: gen_val(&mut r, &m2b, limbs), w: gen_val(&mut r, &m2b, limbs), m2, form: f }
+                }
             });
         }
         Plan { limbs, modulus_id, modulus, src_dyn: *r.pick(&srcs), src_boxed: *r.pick(&srcs), share_arc: r.chance(1, 2), boxed_only, ops }
